@@ -461,7 +461,62 @@ def rawadopt_run():
     return {"lines": int(m.group(1)) if m else 0, "hits": hits}
 
 
-def extra_checks(pid, cfg, tier, seed):
+
+# ------------------------------------------------------------------ census of the untranslated functions
+CENSUS_FNS = {   # name -> properties whose tie it belongs to (functions of src/rc.rs that tools/rs2v.py does not translate)
+    "from_inner": ("C07",), "new_uninit": ("C07",), "pin": ("C07",), "assume_init": ("C07",),
+    "into_raw": ("C06", "C07", "C12"), "as_ptr": ("C06", "C07"), "from_raw": ("C06", "C07", "C12"),
+    "get_mut": ("C07", "C12"), "get_mut_unchecked": ("C07", "C12"), "ptr_eq": ("C06", "C07"),
+    "allocate_for_layout": ("C07",), "from_box": ("C07",), "deref": ("C07",), "default": ("C07",),
+    "eq": ("C07",), "ne": ("C07",), "partial_cmp": ("C07",), "lt": ("C07",), "le": ("C07",), "gt": ("C07",),
+    "ge": ("C07",), "cmp": ("C07",), "hash": ("C07",), "fmt": ("C07",), "from": ("C07",), "new": ("C07",),
+    "inner": ("C05", "C06", "C07"), "is_dangling": ("C05", "C06", "C07"), "borrow": ("C07",), "as_ref": ("C07",),
+    "weak_ref": ("C06",), "strong_ref": ("C06",), "data_offset": ("C06", "C07", "C12"), "box_free": ("C07",),
+    "from_ptr": ("C07",), "mem_to_rcbox": ("C07",), "try_allocate_for_layout": ("C07",),
+}
+
+
+def source_census(repo=None):
+    """normalised text of every function of src/rc.rs that the translator does not cover (comments, the
+    verif instrumentation and white space removed), keyed by name and occurrence: what the glue and raw-API
+    expectations were written from"""
+    repo = repo or P.REPO
+    src = re.sub(r"//[^\n]*", "", open(repo + "/src/rc.rs").read())
+    src = re.sub(r"#\[cfg\(cactusref_verif\)\]\s*[^;{]*;", "", src)
+    out, seen = {}, collections.Counter()
+    for m in re.finditer(r"\bfn\s+(\w+)\s*(?:<[^>{]*>)?\s*\(", src):
+        name = m.group(1)
+        if name not in CENSUS_FNS:
+            continue
+        i = src.find("{", m.end())
+        semi = src.find(";", m.end())
+        if i < 0 or (0 <= semi < i):
+            continue                      # a declaration without body
+        depth, j = 1, i + 1
+        while depth and j < len(src):
+            depth += src[j] == "{"
+            depth -= src[j] == "}"
+            j += 1
+        body = "".join(src[m.start():j].split())
+        seen[name] += 1
+        out["%s#%d" % (name, seen[name])] = hashlib.sha256(body.encode()).hexdigest()[:16]
+    return out
+
+
+def census_ties(pid):
+    want = json.load(open(os.path.join(P.ROOT, "lib", "source_census.json")))
+    got = source_census()
+    ties = []
+    for k in sorted(set(want) | set(got)):
+        if want.get(k) != got.get(k) and pid in CENSUS_FNS.get(k.split("#")[0], ()):
+            ties.append({"type": "census", "hid": "source-census", "line": "src/rc.rs fn " + k, "idx": 0,
+                         "fields": ["untranslated-source"],
+                         "model": "the expectations for this function were written from the text with digest %s" % want.get(k),
+                         "impl": "its text now has digest %s" % got.get(k), "stream": "source"})
+    return {"functions": len([k for k in got if pid in CENSUS_FNS.get(k.split("#")[0], ())]), "ties": ties}
+
+
+def _extra_checks(pid, cfg, tier, seed):
     if pid == "C02" and tier == "thorough":
         r = _cached("asan-%s" % seed, lambda: asan_second_opinion(tier, seed))
         hits = r["hits"]
@@ -502,3 +557,16 @@ def extra_checks(pid, cfg, tier, seed):
                 "samples": ["%s n=%s chords=%s -> %s" % (x.get("shape"), x["n"], x["chords"], {k: x.get(k) for k in ("destroyed", "traces", "pops", "visits", "depth", "us")}) for x in [y for y in r["rows"] if "n" in y][:3]],
                 "evidence": {"rings_and_trees_on_128KiB_stack (supporting measurement, not proof)": r["rows"]}}
     return {}
+
+
+def extra_checks(pid, cfg, tier, seed):
+    """the per-property extra checks, plus the census of the untranslated functions of src/rc.rs for the
+    properties whose expectations were written from their text"""
+    r = dict(_extra_checks(pid, cfg, tier, seed) or {})
+    if pid in ("C05", "C06", "C07", "C12"):
+        c = census_ties(pid)
+        r["tie_breaks"] = list(r.get("tie_breaks", [])) + c["ties"]
+        ev = dict(r.get("evidence", {}))
+        ev["untranslated_source_census"] = {"functions": c["functions"], "changed": [t["line"] for t in c["ties"]]}
+        r["evidence"] = ev
+    return r
